@@ -743,8 +743,8 @@ static int ec_rs(char *loc, char *cmd, char *arg, char *txt)
 static int ec_delete(char *loc, char *cmd, char *arg, char *txt)
 {
 	int beg, end;
-	if (ex_region(loc, &beg, &end) || !lbuf_len(xb))
-		return 1;
+	if (ex_region(loc, &beg, &end) || !lbuf_len(xb) || end == 0)
+		return 1;	/* (0d: there is no line 0) */
 	ex_yank(REG(arg), beg, end);
 	lbuf_edit(xb, NULL, beg, end);
 	xrow = MAX(0, MIN(beg, lbuf_len(xb) - 1));
@@ -754,7 +754,7 @@ static int ec_delete(char *loc, char *cmd, char *arg, char *txt)
 static int ec_yank(char *loc, char *cmd, char *arg, char *txt)
 {
 	int beg, end;
-	if (ex_region(loc, &beg, &end) || !lbuf_len(xb))
+	if (ex_region(loc, &beg, &end) || !lbuf_len(xb) || end == 0)
 		return 1;
 	ex_yank(REG(arg), beg, end);
 	return 0;
